@@ -1042,6 +1042,10 @@ def check_set_order(ctx, f):
             return True
         return _is_set_expr(e)
 
+    ORDER_KEEPING = ('list', 'tuple', 'array', 'asarray', 'join', 'enumerate', 'iter', 'next', 'product', 'zip', 'reversed', 'str',
+                     'map', 'filter', 'chain', 'tolist', 'copy', 'format')
+    opaque_hits = []
+
     def tainted_expr(e, tainted):
         """does the value of e depend on a set's iteration order?"""
         if isinstance(e, ast.Call):
@@ -1052,6 +1056,14 @@ def check_set_order(ctx, f):
             if name in ('list', 'tuple', 'array', 'join', 'enumerate', 'iter', 'next', 'product', 'zip', 'reversed') and e.args:
                 if any(is_set(a.value if isinstance(a, ast.Starred) else a) for a in e.args):
                     return True
+            if name not in ORDER_KEEPING:
+                # a call this analysis does not know (reduce with a commutative lambda, a helper): what it makes of the order
+                # of its argument is not known - recorded, and the sink answers undecided instead of reporting
+                inner = any(tainted_expr(c, tainted) for c in ast.iter_child_nodes(e) if isinstance(c, ast.expr)) or \
+                    any(tainted_expr(c.value, tainted) for c in ast.iter_child_nodes(e) if isinstance(c, (ast.keyword, ast.Starred)))
+                if inner:
+                    opaque_hits.append(name or '?')
+                return inner
         if isinstance(e, ast.Name):
             return e.id in tainted
         if isinstance(e, (ast.ListComp, ast.GeneratorExp, ast.SetComp, ast.DictComp)):
@@ -1117,6 +1129,11 @@ def check_set_order(ctx, f):
             continue
         k += 1
         bad = tainted_expr(nd.stmt.value, tainted)
+        if bad and opaque_hits:
+            run.undecided('R-STATE', f, 'return#%d:independent-of-set-order' % k, nd.lineno,
+                          'a value derived from the iteration order of a set passes through %s(), whose dependence on the order of its '
+                          'argument is not known' % sorted(set(opaque_hits))[0])
+            continue
         run.check(not bad, 'R-STATE', f, 'return#%d:independent-of-set-order' % k, nd.lineno,
                   'no returned component depends on the iteration order of a set',
                   'a returned value of %s depends on the iteration order of a set (hash randomisation makes it differ '
@@ -1242,13 +1259,43 @@ def r_verb(ctx, floor_funcs=0):
                             npass += 1
         for u in uses:
             if id(u) not in accounted:
-                bad.append((u.lineno, 'verbose is used outside a guard test / pass-down'))
+                as_argument = any(isinstance(c_, ast.Call) and (u in c_.args or any(k_.value is u for k_ in c_.keywords))
+                                  for c_ in ast.walk(f.node))
+                # an argument expression that contains verbose: does its value depend on verbose at all?
+                inside = [a_ for c_ in ast.walk(f.node) if isinstance(c_, ast.Call)
+                          for a_ in list(c_.args) + [k_.value for k_ in c_.keywords]
+                          if a_ is not u and any(x_ is u for x_ in ast.walk(a_))]
+                dep = None
+                if inside:
+                    from ..finite import feval as _fe, UNKNOWN as _UNK
+                    nd_ = next((n_ for n_ in f.nodes for r_ in ctx.roots(n_) if any(x_ is u for x_ in ast.walk(r_))), None)
+                    if nd_ is not None:
+                        ta = f.term(inside[0], nd_)
+                        vals = [_fe(ta, lambda x, b=b: b if (x[0] == 'v' and x[1] in vnames) else _UNK) for b in (True, False)]
+                        if all(v is not _UNK for v in vals):
+                            dep = vals[0] != vals[1]
+                if as_argument or dep is True:
+                    bad.append((u.lineno, 'verbose is passed to a call as something other than its verbose parameter'
+                                if as_argument else 'the argument `%s` of a call takes a different value when verbose is on'
+                                % ast.unparse(inside[0])[:40]))
+                elif dep is False:
+                    pass        # e.g. `not verbose or True`: the value does not depend on verbose
+                else:
+                    bad.append((u.lineno, 'UNCLEAR: verbose is used outside a guard test / pass-down (%s)'
+                                % 'its value flows into an expression this rule does not follow'))
         # monitor used outside regions
         for n in ast.walk(f.node):
             if isinstance(n, ast.Name) and n.id in monitors and isinstance(n.ctx, ast.Load):
                 if not _inside_verbose_region(f.node, n, vnames) and not _is_alias_binding(f.node, n, monitors):
-                    bad.append((n.lineno, 'the Monitor instance is used outside a verbose region'))
+                    called = any(isinstance(c_, ast.Call) and c_.func is n for c_ in ast.walk(f.node))
+                    bad.append((n.lineno, ('' if called else 'UNCLEAR: ') + 'the Monitor instance is %s outside a verbose region'
+                                % ('called' if called else 'used')))
         bad.extend(_read_after_delete(f, vnames))
+        unclear = [b for b in bad if b[1].startswith('UNCLEAR:')]
+        bad = [b for b in bad if not b[1].startswith('UNCLEAR:')]
+        if not bad and unclear:
+            run.undecided('R-VERB', f, 'verbose-neutral', unclear[0][0], '; '.join('line %d: %s' % (b[0], b[1][9:]) for b in unclear[:3]))
+            continue
         run.check(not bad, 'R-VERB', f, 'verbose-neutral', bad[0][0] if bad else f.node.lineno,
                   'verbose only guards print / monitor calls or is passed down',
                   'turning verbose on changes more than the output in %s: %s' % (f.name, '; '.join('line %d: %s' % b for b in bad[:3])),
@@ -1431,16 +1478,42 @@ def _positive_guard(t):
     return True
 
 
-def _pure_expr(e):
+_EFFECT_METHODS = {'append', 'add', 'pop', 'remove', 'sort', 'update', 'extend', 'insert', 'clear', 'discard', 'setdefault',
+                   'popitem', 'reverse', 'fill', 'put', 'shuffle', 'seed', 'write', 'resize', 'itemset', 'partition', 'byteswap'}
+_PURE_METHODS = {'replace', 'items', 'astype', 'total_seconds', 'tolist', 'sum', 'any', 'all', 'count', 'index', 'keys', 'values',
+                 'get', 'upper', 'lower', 'join', 'format', 'strip', 'lstrip', 'rstrip', 'copy', 'max', 'min', 'mean', 'round',
+                 'rjust', 'ljust', 'zfill', 'center', 'split', 'startswith', 'endswith', 'nonzero', 'flatten', 'ravel', 'reshape',
+                 'argmax', 'argmin', 'argsort', 'find', 'title', 'capitalize', 'most_common'}
+_PURE_NUMPY = {'count_nonzero', 'sum', 'where', 'nonzero', 'flatnonzero', 'mean', 'median', 'max', 'min', 'amax', 'amin', 'argmax',
+               'argmin', 'argsort', 'unique', 'array', 'asarray', 'round', 'around', 'any', 'all', 'log', 'log2', 'abs', 'zeros', 'ones',
+               'full', 'arange', 'sort', 'cumsum', 'prod', 'isin', 'in1d', 'intersect1d', 'union1d', 'diff', 'floor', 'ceil', 'sqrt'}
+
+
+def _purity(e, module=None):
+    """'pure' | 'effect' | 'unknown' for an expression used inside a progress call"""
+    worst = 'pure'
     for n in ast.walk(e):
+        if isinstance(n, (ast.NamedExpr, ast.Await, ast.Yield, ast.YieldFrom)):
+            return 'effect'
         if isinstance(n, ast.Call):
             fn = n.func
-            name = fn.id if isinstance(fn, ast.Name) else (fn.attr if isinstance(fn, ast.Attribute) else None)
-            if name not in PURE_IN_VERBOSE and name not in ('replace', 'items', 'astype', 'total_seconds'):
-                return False
-        if isinstance(n, (ast.NamedExpr, ast.Await, ast.Yield, ast.YieldFrom)):
-            return False
-    return True
+            if isinstance(fn, ast.Name):
+                if fn.id in PURE_IN_VERBOSE or fn.id in _PURE_NUMPY:
+                    continue
+                worst = 'unknown'
+            elif isinstance(fn, ast.Attribute):
+                if fn.attr in _EFFECT_METHODS:
+                    return 'effect'
+                if fn.attr in _PURE_METHODS or fn.attr in _PURE_NUMPY or fn.attr in PURE_IN_VERBOSE:
+                    continue
+                worst = 'unknown'
+            else:
+                worst = 'unknown'
+    return worst
+
+
+def _pure_expr(e):
+    return _purity(e) == 'pure'
 
 
 def _dump_without_progress(stmts, monitors):
@@ -1494,8 +1567,11 @@ def _region_violation(st, monitors, region_locals=frozenset()):
         fn = c.func
         if isinstance(fn, ast.Name) and (fn.id == 'print' or fn.id in monitors):
             for a in list(c.args) + [k.value for k in c.keywords]:
-                if not _pure_expr(a):
+                pu = _purity(a)
+                if pu == 'effect':
                     return 'argument %s of a progress call has side effects' % ast.unparse(a)[:60]
+                if pu == 'unknown':
+                    return 'UNCLEAR: argument %s of a progress call calls something this rule does not classify' % ast.unparse(a)[:60]
             return None
         return 'statement `%s` inside a verbose region is not a print / monitor call' % ast.unparse(st)[:60]
     if isinstance(st, ast.Assign) and _pure_expr(st.value) and \
